@@ -8,6 +8,7 @@ from vlib import room
 
 
 def run(ctx):
+    ctx.repro_attempts = 6   # order- and schedule-dependent misbehaviour is retried in fresh processes
     ctx.exhaustive = True
     ctx.notes["rule"] = ("every fork pair of every room reachable in Room.tla within the plans of vlib/room.py "
                          "(creation prefix x version x MaxFree free events); distinct = (version, kinds of the "
